@@ -18,6 +18,96 @@ fn text_of(spec: &Value) -> String {
     s
 }
 
+static PANICS: std::sync::atomic::AtomicU64 = std::sync::atomic::AtomicU64::new(0);
+
+async fn actor_cancel() -> Value {
+    use crate::provision::ProvisionFlags;
+    use proxy_agent_shared::proxy_agent_aggregate_status::ModuleState;
+    use std::sync::atomic::Ordering;
+    let prev = std::panic::take_hook();
+    std::panic::set_hook(Box::new(|_| {
+        PANICS.fetch_add(1, Ordering::SeqCst);
+    }));
+    let shared = crate::shared_state::SharedState::start_all();
+    let st = shared.get_agent_status_shared_state();
+    let kk = shared.get_key_keeper_shared_state();
+    let pv = shared.get_provision_shared_state();
+    let rd = shared.get_redirector_shared_state();
+    let tm = shared.get_telemetry_shared_state();
+    let ps = shared.get_proxy_server_shared_state();
+    let mut results: Vec<Value> = Vec::new();
+    macro_rules! cancel_once {
+        ($actor:expr, $name:expr, $fut:expr) => {{
+            let before = PANICS.load(Ordering::SeqCst);
+            let polled = {
+                let fut = $fut;
+                tokio::pin!(fut);
+                tokio::select! { biased; _ = &mut fut => "completed", _ = std::future::ready(()) => "pending" }
+            }; // the future (and its one-shot receiver) is dropped here
+            tokio::time::sleep(std::time::Duration::from_millis(2)).await; // the actor works through its mailbox
+            let alive = match $actor {
+                "status" => st.get_connection_count().await.is_ok(),
+                "keyKeeper" => kk.get_current_key_guid().await.is_ok(),
+                "provision" => pv.get_state().await.is_ok(),
+                "redirector" => rd.get_local_port().await.is_ok(),
+                "telemetry" => tm.get_vm_meta_data().await.is_ok(),
+                _ => ps.get_user(1).await.is_ok(),
+            };
+            results.push(json!({"actor": $actor, "call": $name, "polled": polled, "alive": alive,
+                                "panics": PANICS.load(Ordering::SeqCst) - before}));
+        }};
+    }
+    cancel_once!("status", "increase_connection_count", st.increase_connection_count());
+    cancel_once!("status", "increase_tcp_connection_count", st.increase_tcp_connection_count());
+    cancel_once!("status", "get_connection_count", st.get_connection_count());
+    cancel_once!("status", "set_module_state", st.set_module_state(ModuleState::RUNNING, AgentStatusModule::KeyKeeper));
+    cancel_once!("status", "set_module_status_message", st.set_module_status_message("m".to_string(), AgentStatusModule::KeyKeeper));
+    cancel_once!("status", "get_module_status_message", st.get_module_status_message(AgentStatusModule::KeyKeeper));
+    cancel_once!("status", "get_module_status", st.get_module_status(AgentStatusModule::KeyKeeper));
+    cancel_once!("status", "get_all_connection_summary", st.get_all_connection_summary());
+    cancel_once!("status", "get_all_failed_connection_summary", st.get_all_failed_connection_summary());
+    cancel_once!("status", "clear_all_summary", st.clear_all_summary());
+    cancel_once!("keyKeeper", "clear_key", kk.clear_key());
+    cancel_once!("keyKeeper", "get_current_key_guid_and_value", kk.get_current_key_guid_and_value());
+    cancel_once!("keyKeeper", "get_current_key_value", kk.get_current_key_value());
+    cancel_once!("keyKeeper", "get_current_key_guid", kk.get_current_key_guid());
+    cancel_once!("keyKeeper", "get_current_key_incarnation", kk.get_current_key_incarnation());
+    cancel_once!("keyKeeper", "update_current_secure_channel_state", kk.update_current_secure_channel_state("x".to_string()));
+    cancel_once!("keyKeeper", "get_current_secure_channel_state", kk.get_current_secure_channel_state());
+    cancel_once!("keyKeeper", "update_wireserver_rule_id", kk.update_wireserver_rule_id("r".to_string()));
+    cancel_once!("keyKeeper", "get_wireserver_rule_id", kk.get_wireserver_rule_id());
+    cancel_once!("keyKeeper", "update_imds_rule_id", kk.update_imds_rule_id("r".to_string()));
+    cancel_once!("keyKeeper", "get_imds_rule_id", kk.get_imds_rule_id());
+    cancel_once!("keyKeeper", "update_hostga_rule_id", kk.update_hostga_rule_id("r".to_string()));
+    cancel_once!("keyKeeper", "get_hostga_rule_id", kk.get_hostga_rule_id());
+    cancel_once!("keyKeeper", "set_wireserver_rules", kk.set_wireserver_rules(None));
+    cancel_once!("keyKeeper", "get_wireserver_rules", kk.get_wireserver_rules());
+    cancel_once!("keyKeeper", "set_imds_rules", kk.set_imds_rules(None));
+    cancel_once!("keyKeeper", "get_imds_rules", kk.get_imds_rules());
+    cancel_once!("keyKeeper", "set_hostga_rules", kk.set_hostga_rules(None));
+    cancel_once!("keyKeeper", "get_hostga_rules", kk.get_hostga_rules());
+    cancel_once!("keyKeeper", "get_notify", kk.get_notify());
+    cancel_once!("keyKeeper", "notify", kk.notify());
+    cancel_once!("provision", "update_one_state", pv.update_one_state(ProvisionFlags::REDIRECTOR_READY));
+    cancel_once!("provision", "reset_one_state", pv.reset_one_state(ProvisionFlags::KEY_LATCH_READY));
+    cancel_once!("provision", "get_state", pv.get_state());
+    cancel_once!("provision", "set_event_log_threads_initialized", pv.set_event_log_threads_initialized());
+    cancel_once!("provision", "get_event_log_threads_initialized", pv.get_event_log_threads_initialized());
+    cancel_once!("provision", "set_provision_finished", pv.set_provision_finished(true));
+    cancel_once!("provision", "set_provision_finished_if_all_ready", pv.set_provision_finished_if_all_ready());
+    cancel_once!("provision", "get_provision_finished", pv.get_provision_finished());
+    cancel_once!("redirector", "set_local_port", rd.set_local_port(1));
+    cancel_once!("redirector", "get_local_port", rd.get_local_port());
+    cancel_once!("redirector", "clear_bpf_object", rd.clear_bpf_object());
+    cancel_once!("redirector", "get_bpf_object", rd.get_bpf_object());
+    cancel_once!("telemetry", "set_vm_meta_data", tm.set_vm_meta_data(None));
+    cancel_once!("telemetry", "get_vm_meta_data", tm.get_vm_meta_data());
+    cancel_once!("proxyServer", "get_user", ps.get_user(7));
+    cancel_once!("proxyServer", "clear_users", ps.clear_users());
+    std::panic::set_hook(prev);
+    json!({"calls": results})
+}
+
 pub fn main() -> i32 {
     let rt = tokio::runtime::Builder::new_current_thread().enable_all().build().unwrap();
     let status = rt.block_on(async { AgentStatusSharedState::start_new() });
@@ -64,6 +154,11 @@ pub fn main() -> i32 {
                 }
                 json!({"ok": true, "short": short})
             }
+            // Robust!Abandon + ActorReply for every actor: a requester that is dropped after its message was queued and
+            // before the actor answers (what happens to a request handler whose client went away, and to every task raced
+            // against the cancellation token).  Each client call is polled exactly once -- the runtime is single-threaded,
+            // so the actor cannot have answered -- and dropped; then the actor gets to run and must still answer.
+            "actor_cancel" => rt.block_on(actor_cancel()),
             other => json!({"error": format!("unknown kind {}", other)}),
         }));
         let v = match r {
